@@ -23,6 +23,18 @@ Record point : Type := mkPoint {
   p_Xc : list (list (list (list F)));     (* [k][i][j] helper states *)
   p_Zc : list (list (list (list F))) }.   (* [k][i][j] algebraic values at roots *)
 
+(* the horizon values: a fixed number, a parameter slot, a variable slot, or (FreeTime) the
+   promoted decision variable whose value the point carries *)
+Definition horizon_value (h : horizon) (pt : point) (free : F) : F :=
+  match h with
+  | HFixed q => of_Q q
+  | HFree _ => free
+  | HParam i => nth i (p_P pt) o0
+  | HVar i => nth i (p_V pt) o0
+  end.
+Definition T_of (oc : ocp) (pt : point) : F := horizon_value (o_T oc) pt (p_T pt).
+Definition t0_of (oc : ocp) (pt : point) : F := horizon_value (o_t0 oc) pt (p_t0 pt).
+
 (* environment of the system function on interval k (get_p_sys(k)); x and t
    are filled in by the integrator *)
 Definition sys_env (pt : point) (k : nat) (x : list F) (t DT DTc : F) : env F :=
@@ -81,7 +93,7 @@ Definition shoot (oc : ocp) (pt : point) (cg : list F) (single : bool) : shoot_a
                a_xk := []; a_xqk := [vzero nq]; a_FF := [] |}.
 
 Definition grid_of (oc : ocp) (pt : point) : list F :=
-  control_grid (m_grid (o_method oc)) (m_N (o_method oc)) (p_t0 pt) (p_T pt)
+  control_grid (m_grid (o_method oc)) (m_N (o_method oc)) (t0_of oc pt) (T_of oc pt)
                (p_t0loc pt) (p_Tloc pt).
 
 Definition lists_of (oc : ocp) (pt : point) (single : bool) : mlists F :=
@@ -96,7 +108,7 @@ Definition lists_of (oc : ocp) (pt : point) (single : bool) : mlists F :=
      L_Q := a_Q a;
      L_P := p_P pt; L_PC := p_PC pt; L_PP := p_PP pt;
      L_V := p_V pt; L_VC := p_VC pt; L_VP := p_VP pt;
-     L_T := p_T pt; L_t0 := p_t0 pt;
+     L_T := T_of oc pt; L_t0 := t0_of oc pt;
      L_cg := cg; L_ig := integrator_grid cg N M;
      L_xk := a_xk a ++ [last X []];
      L_xqk := a_xqk a;
@@ -116,7 +128,7 @@ Definition dyn_rows (oc : ocp) (pt : point) (a : shoot_acc) (k : nat) : list (ro
 
 Definition freeT_rows (oc : ocp) (pt : point) : list (row F) :=
   match o_T oc with
-  | HFree _ => [mkRow KFreeT 0 0 SLe (o0 -! p_T pt)]
+  | HFree _ => [mkRow KFreeT 0 0 SLe (o0 -! T_of oc pt)]
   | _ => []
   end.
 
@@ -130,12 +142,12 @@ Definition rows_ms (oc : ocp) (pt : point) : list (row F) :=
   let cg := grid_of oc pt in
   let a := shoot oc pt cg false in
   let L := lists_of oc pt false in
-  let Tl := T_local (m_grid me) N (p_T pt) (p_Tloc pt) in
-  let t0l := p_t0 pt :: p_t0loc pt in
-  bounds_finalize (m_grid me) cg (p_t0 pt) (p_T pt)
+  let Tl := T_local (m_grid me) N (T_of oc pt) (p_Tloc pt) in
+  let t0l := t0_of oc pt :: p_t0loc pt in
+  bounds_finalize (m_grid me) cg (t0_of oc pt) (T_of oc pt)
   ++ flat_map (fun k =>
        dyn_rows oc pt a k
-       ++ bounds_T (m_grid me) N (horizon_is_var (o_T oc)) (p_T pt) Tl t0l k
+       ++ bounds_T (m_grid me) N (horizon_is_var (o_T oc)) (T_of oc pt) Tl t0l k
        ++ path_rows_k oc L k) (seq 0 N)
   ++ last_rows L (o_c_control oc ++ o_c_integrator oc)
   ++ map (prow L) (o_c_point oc)
@@ -146,11 +158,11 @@ Definition rows_ss (oc : ocp) (pt : point) : list (row F) :=
   let N := m_N me in
   let cg := grid_of oc pt in
   let L := lists_of oc pt true in
-  let Tl := T_local (m_grid me) N (p_T pt) (p_Tloc pt) in
-  let t0l := p_t0 pt :: p_t0loc pt in
-  bounds_finalize (m_grid me) cg (p_t0 pt) (p_T pt)
+  let Tl := T_local (m_grid me) N (T_of oc pt) (p_Tloc pt) in
+  let t0l := t0_of oc pt :: p_t0loc pt in
+  bounds_finalize (m_grid me) cg (t0_of oc pt) (T_of oc pt)
   ++ flat_map (fun k =>
-       bounds_T (m_grid me) N (horizon_is_var (o_T oc)) (p_T pt) Tl t0l k
+       bounds_T (m_grid me) N (horizon_is_var (o_T oc)) (T_of oc pt) Tl t0l k
        ++ path_rows_k oc L k) (seq 0 N)
   ++ last_rows L (o_c_control oc ++ o_c_integrator oc)
   ++ map (prow L) (o_c_point oc)
